@@ -146,7 +146,7 @@ class MarginalRateCalc(_CalcReplay, Contract):
             out = [dict(p, factor=1.5, decimals=0, thresholds=[0, 100.4, 200.3], values=[0.0, 1.0, 0.5], bases=[50.0, 151.0, 200.0, 301.0, 1000.0]) for p in out[:1]] + \
                   [dict(p, factor=1.3, decimals=1, thresholds=[0, 100.12], values=[0.0, 1.0], bases=[500.0, 130.1, 130.2]) for p in out[:1]]
         elif case == "factor":
-            out = [dict(p, factor=2.5) for p in out]
+            out = [dict(p, factor=2.5) for p in out] + [dict(p, factor=0.5) for p in out[:2]]
         return out
 
     def post(self, I, ctx, a, out, old):
@@ -262,12 +262,19 @@ class MarginalRates(Contract):
     top_level = True
     descr = "the marginal rate reported for a base is the rate of the bracket reported for it"
 
-    cases = (None, "factor-and-rounding")
+    cases = (None, "factor-and-rounding", "after-an-earlier-look-up-and-an-in-place-change")
 
     def setup(self, I, ctx, case):
         w = ScaleWorld(I, ctx, MR)
         ctx.ghost["sw"] = w
         a = {"self": w.scale, "tax_base": w.base, "__w": w}
+        if case and case.startswith("after-an-earlier"):
+            # history: the same look-up on this scale object when its lists held other thresholds / rates (as many), then the
+            # lists changed in place; what is reported now is of the scale as it is now
+            earlier_call_then_in_place_change(self, I, ctx, a, w)
+            ctx.ghost["log"] = [e for e in ctx.ghost.get("log", []) if e["callee"] != "bracket_indices"]
+            ctx.ghost.pop("BIDX", None)
+            return a
         if case == "factor-and-rounding" and self.name.endswith("marginal_rates"):
             f = ctx.fresh_real("factor")
             ctx.assume(f > 0)
@@ -340,6 +347,10 @@ def bracket_judge(nat):
     if nat["kind"] == "raise":
         return "violates", "raised " + nat.get("exc", "") + ": " + nat.get("msg", "")
     return ("satisfies", "as specified") if nat["value"].get("ok") else ("violates", "; ".join(nat["value"].get("mismatches", []))[:500])
+
+
+MarginalRates.probes = lambda self, case: BRACKET_PROBES(self)
+MarginalRates.judge_native = lambda self, I, case, call, nat: bracket_judge(nat)
 
 
 class BracketIndices(Contract):
